@@ -491,7 +491,7 @@ class AsmFacts:
                 mm = re.match(r"^\s*([0-9a-f]+):\s+(\S+)\s*(.*)$", line)
                 if mm and not line.startswith("Disassembly"):
                     addr = int(mm.group(1), 16)
-                    ops = split_ops(re.sub(r"\s*<[^>]*>", "", mm.group(3).strip()))
+                    ops = split_ops(re.sub(r"\s*<[^>]*>", "", mm.group(3).split("#")[0].strip()))
                     pc = len(self.ins)
                     addr2pc[addr] = pc
                     self.ins.append((pc, os.path.basename(o), addr, mm.group(2), ops, line.strip()))
